@@ -28,7 +28,10 @@ type C07Exec struct {
 }
 
 type C07Case struct {
-	Mode    string      `json:"mode"` // inside | concurrent
+	Mode    string      `json:"mode"` // inside | concurrent | updaters (two goroutines issue commuting updates concurrently)
+	BigAdd  int         `json:"big_add,omitempty"`   // updaters: number of rules added by the one big incremental update
+	Small   int         `json:"small,omitempty"`     // updaters: number of small incremental updates racing with it
+	Removes []string    `json:"removes,omitempty"`   // updaters: v0 rules removed (one call each) by the second goroutine
 	PoolMin int64       `json:"pool_min"`
 	PoolMax int64       `json:"pool_max"`
 	EM      int         `json:"em"`
@@ -278,6 +281,8 @@ func init() {
 			c := &C07Case{Mode: "inside"}
 			if pct(t, "concurrent", 25) {
 				c.Mode = "concurrent"
+			} else if pct(t, "updaters", 10) {
+				c.Mode = "updaters"
 			}
 			sizes := [][2]int64{{1, 2}, {1, 3}, {2, 3}, {2, 4}}
 			s := sizes[uni(t, "pool_size", 0, len(sizes)-1)]
@@ -286,6 +291,14 @@ func init() {
 			c.V0 = genDistinctRules(t, "v0_", 3, 6, nil)
 			cur := setOf(c.V0, 0)
 			ms := gx.MethodNames(true)
+			if c.Mode == "updaters" {
+				c.BigAdd = uni(t, "big_add", 30, 120)
+				c.Small = uni(t, "small", 3, 12)
+				names := ruleNamesOf(c.V0)
+				nrm := uni(t, "nremoves", 0, len(names)-1)
+				c.Removes = rapid.Permutation(names).Draw(t, "removes")[:nrm]
+				return c
+			}
 			if c.Mode == "inside" {
 				u := genC07Update(t, "u1_", cur)
 				c.Updates = []C07Update{u}
@@ -358,6 +371,99 @@ func checkC07(ci interface{}, x *Ctx) {
 		x.Class("update:" + u.Kind)
 	}
 	final := sets[len(sets)-1]
+	if c.Mode == "updaters" {
+		// two goroutines issue commuting updates (disjoint names): whatever the serialisation,
+		// every update that returned successfully must be part of the final rule set
+		mk := func(prefix string, i int, sal int64) string {
+			return fmt.Sprintf("rule \"%s%d\" \"d\" salience %d\nbegin\n  S(@name)\n  upd(@name)\n  gate(@name)\n  E(@name)\n  return %d\nend\n", prefix, i, sal, 7000+i)
+		}
+		var big strings.Builder
+		for i := 0; i < c.BigAdd; i++ {
+			big.WriteString(mk("m", i, int64(100+i)))
+		}
+		var wg sync.WaitGroup
+		var e1 error
+		e2s := make([]error, c.Small+len(c.Removes))
+		wg.Add(2)
+		start := make(chan struct{})
+		go func() {
+			defer wg.Done()
+			<-start
+			e1 = p.UpdatePooledRulesIncremental(big.String())
+		}()
+		go func() {
+			defer wg.Done()
+			<-start
+			for i := 0; i < c.Small; i++ {
+				e2s[i] = p.UpdatePooledRulesIncremental(mk("z", i, int64(-100-i)))
+				if i < len(c.Removes) {
+					e2s[c.Small+i] = p.RemoveRules([]string{c.Removes[i]})
+				}
+			}
+			for i := c.Small; i < len(c.Removes); i++ {
+				e2s[c.Small+i] = p.RemoveRules([]string{c.Removes[i]})
+			}
+		}()
+		close(start)
+		done := make(chan struct{})
+		go func() { wg.Wait(); close(done) }()
+		select {
+		case <-done:
+		case <-time.After(hangBound()):
+			hangExit(x, currentCaseJSON, "concurrent management calls did not return")
+		}
+		if e1 != nil {
+			x.Violation("update-failed", "big incremental update failed: %v", e1)
+			return
+		}
+		for _, e := range e2s {
+			if e != nil {
+				x.Violation("update-failed", "small update / removal failed: %v", e)
+				return
+			}
+		}
+		want := map[string]bool{}
+		for _, r := range c.V0 {
+			want[r.Name] = true
+		}
+		for _, n := range c.Removes {
+			delete(want, n)
+		}
+		for i := 0; i < c.BigAdd; i++ {
+			want[fmt.Sprintf("m%d", i)] = true
+		}
+		for i := 0; i < c.Small; i++ {
+			want[fmt.Sprintf("z%d", i)] = true
+		}
+		x.Class("two-updaters")
+		x.NonTrivial()
+		if n := p.GetRulesNumber(); n != len(want) {
+			x.Violation("lost-update:count", "after two goroutines' updates all returned successfully the pool reports %d rules, the updates denote %d (big incremental of %d rules, %d small incrementals, %d removals)", n, len(want), c.BigAdd, c.Small, len(c.Removes))
+			return
+		}
+		var names []string
+		for n := range want {
+			names = append(names, n)
+		}
+		ex := p.IsExist(names)
+		for i, n := range names {
+			if !ex[i] {
+				x.Violation("lost-update:exist", "rule %q was added by an update that returned successfully but does not exist afterwards", n)
+				return
+			}
+		}
+		for _, n := range c.Removes {
+			if p.IsExist([]string{n})[0] {
+				x.Violation("lost-update:removal", "rule %q was removed by a call that returned successfully but still exists", n)
+				return
+			}
+		}
+		err, res := p.Execute(map[string]interface{}{"stag": env.tag}, true)
+		if err != nil || len(res) != len(want) {
+			x.Violation("lost-update:execute", "execution after the updates returned %d results (err=%v), the updates denote %d rules", len(res), err, len(want))
+		}
+		return
+	}
 	if c.Mode == "inside" {
 		m, _ := gx.Lookup(c.Call.Method)
 		x.Class("method:" + c.Call.Method)
